@@ -435,6 +435,17 @@ class Machine:
             return float(a[0])
         if re.search(r"as From<\w+>>::from$", c):
             return a[0]
+        m = re.search(r"<(\w+) as (?:Try)?Into<(\w+)>>::(try_)?into$", c) or re.search(r"<(\w+) as (?:Try)?From<(\w+)>>::(try_)?from$", c)
+        if m and m.group(1) in INT_BITS and m.group(2) in INT_BITS:
+            src, dst = (m.group(1), m.group(2)) if "Into<" in c else (m.group(2), m.group(1))
+            fits = wrap(a[0], dst) == a[0]
+            if m.group(3):
+                return Enum("Ok", [a[0]]) if fits else Enum("Err", [Opaque()])
+            return a[0]
+        if re.search(r"Result::<.*>::unwrap$", c):
+            if a[0].variant != "Ok":
+                raise Panic("unwrap of an Err")
+            return a[0].payload[0]
         if c.endswith("f64>::trunc"):
             return float(math.trunc(a[0]))
         if c.endswith("f64>::round"):
